@@ -60,6 +60,10 @@ fn gen_route(rng: &mut Rng) -> RouteM {
         })
         .collect();
     let kind = match rng.below(9) {
+        // an empty or blank quoted string is a value like any other (it is present, so not "missing")
+        0 | 1 if rng.chance(1, 8) => RKind::File(rng.pick(&["", " ", "  "]).to_string()),
+        2 | 3 if rng.chance(1, 8) => RKind::Directory(rng.pick(&["", " "]).to_string()),
+        6 | 7 if rng.chance(1, 8) => RKind::Redirect(rng.pick(&["", " "]).to_string()),
         0 | 1 => RKind::File(format!("/srv/{}.html", rng.pick(&["index", "about", "a b"]))),
         2 | 3 => RKind::Directory(format!("/var/www/{}", rng.pick(&["site", "static", "with space", ""]))),
         4 | 5 => {
